@@ -85,6 +85,18 @@ def parseI64 (s : Str) : Option Nat := (parseNat 10 s).filter (· < two63)
 /-- `strconv.ParseUint(s, 16, 64)` -/
 def parseU64Hex (s : Str) : Option Nat := (parseNat 16 s).filter (· < two64)
 
+/-- `%d` of a signed number -/
+def intStr (i : Int) : Str := if i < 0 then 45 :: dec i.natAbs else dec i.natAbs
+
+/-- `strconv.ParseInt(s, 10, 64)` on an optionally negative digit string (`-?\d+`) -/
+def parseI64Z (s : Str) : Option Int :=
+  match stripPrefix [45] s with
+  | some r => ((parseNat 10 r).filter (· ≤ two63)).map (fun n => -(n : Int))
+  | none => (parseI64 s).map (fun n => (n : Int))
+
+/-- Go `a / b` on `int64` (b ≠ 0): truncated towards zero, `MinInt64 / -1` wraps to `MinInt64`. -/
+def goDiv (a b : Int) : Int := wrapI64 (Int.tdiv a b)
+
 /-- `strconv.ParseInt(s, 0, 64)` restricted to unsigned digit strings and `0x…`: a leading `0`
 (followed by more) makes the string octal (as in Go), `0x` hexadecimal. -/
 def parseI64Base0 (s : Str) : Option Nat :=
@@ -95,6 +107,21 @@ def parseI64Base0 (s : Str) : Option Nat :=
        else (parseNat 8 (c :: r)).filter (· < two63))
     else parseI64 s
   | _ => parseI64 s
+
+/-- magnitude of a base-0 literal (`0x…` hexadecimal, leading `0` octal, else decimal) -/
+def parseNatBase0 (s : Str) : Option Nat :=
+  match s with
+  | b :: c :: r =>
+    if b.toNat == 48 then
+      (if c.toNat == 120 || c.toNat == 88 then parseNat 16 r else parseNat 8 (c :: r))
+    else parseNat 10 s
+  | _ => parseNat 10 s
+
+/-- `strconv.ParseInt(s, 0, 64)` with an optional `-` -/
+def parseI64Base0Z (s : Str) : Option Int :=
+  match stripPrefix [45] s with
+  | some r => ((parseNatBase0 r).filter (· ≤ two63)).map (fun n => -(n : Int))
+  | none => (parseI64Base0 s).map (fun n => (n : Int))
 
 /-- `strconv.ParseUint("0x…", 0, 64)` -/
 def parseU64Base0 (s : Str) : Option Nat :=
@@ -228,5 +255,11 @@ def searchRe {α} (m : Str → Option α) : Str → Option α
 def reDigits (s : Str) : Option (Str × Str) :=
   let ds := s.takeWhile isDigit
   if ds.isEmpty then none else some (ds, s.dropWhile isDigit)
+
+/-- `-?\d+` → capture (with its sign), rest -/
+def reSDigits (s : Str) : Option (Str × Str) :=
+  match stripPrefix [45] s with
+  | some r => (reDigits r).map (fun (d, t) => (45 :: d, t))
+  | none => reDigits s
 
 end PV.Legacy
